@@ -127,7 +127,7 @@ func (r *SnoopReader) readPacketHeader() (ci gopacket.CaptureInfo, err error) {
 	ci.Timestamp = time.Unix(int64(binary.BigEndian.Uint32(r.buf[16:20])), int64(binary.BigEndian.Uint32(r.buf[20:24])*1000)).UTC()
 	ci.Length = int(binary.BigEndian.Uint32(r.buf[0:4]))
 	ci.CaptureLength = int(binary.BigEndian.Uint32(r.buf[4:8]))
-	r.pad = int(binary.BigEndian.Uint32(r.buf[8:12])) - (24 + ci.Length)
+	r.pad = int(binary.BigEndian.Uint32(r.buf[8:12])) - (24 + ci.CaptureLength)
 
 	if ci.CaptureLength > ci.Length {
 		err = errors.New(originalLenExceeded)
@@ -136,6 +136,11 @@ func (r *SnoopReader) readPacketHeader() (ci gopacket.CaptureInfo, err error) {
 
 	if ci.CaptureLength > maxCaptureLen {
 		err = errors.New(captureLenExceeded)
+		return
+	}
+
+	if r.pad < 0 || r.pad > maxCaptureLen {
+		err = fmt.Errorf("Invalid record length %d for %d captured bytes", binary.BigEndian.Uint32(r.buf[8:12]), ci.CaptureLength)
 	}
 
 	return
